@@ -13,8 +13,10 @@ git -C /repo worktree remove --force /tmp/mut_$ID 2>/dev/null; git -C /repo work
 bash /verif/tools/confirm_seed.sh $ID $OUT "$PKG" "$RUN" $EX 2>&1 | tail -12
 D=/verif/seeded/$ID-$SUF; mkdir -p $D
 cp $OUT/patch.diff $OUT/demo_test.go $D/; cp $OUT/AGENT_README.md $D/ 2>/dev/null; cp $OUT/meta.json $D/meta.json 2>/dev/null
-echo "== check with seed applied"
-git -C /repo apply $D/patch.diff || { echo PATCH-DOES-NOT-APPLY-TO-REPO; exit 9; }
-(cd /verif; timeout 1800 python3 check.py $ID "$@" 2>&1 | grep "VIOLATION\|^property\|PROBLEM\|KNOWN" | cut -c1-260 | head -8)
-git -C /repo checkout -- .
-git -C /repo status --short
+echo "== check with seed applied (scratch worktree, /repo untouched)"
+W=/tmp/evalrepo_$ID
+git -C /repo worktree remove --force $W 2>/dev/null
+git -C /repo worktree add -q --detach $W HEAD || exit 9
+git -C $W apply $D/patch.diff || { echo PATCH-DOES-NOT-APPLY-TO-REPO; git -C /repo worktree remove --force $W; exit 9; }
+(cd /verif; VERIF_REPO=$W VERIF_EVIDENCE_DIR=/tmp/seed-evidence timeout 1800 python3 check.py $ID "$@" 2>&1 | grep "VIOLATION\|^property\|PROBLEM\|KNOWN" | cut -c1-260 | head -8)
+git -C /repo worktree remove --force $W
